@@ -506,6 +506,22 @@ def gen_universe(r):
     infos = []
     if r.random() < 0.08:
         return [MetaInfo(r)]
+    if r.random() < 0.10:
+        # one of the repository's own grammars, with a long input of its own kind
+        from simkit import corpus
+        m = C.corpus_member(r, 0, r.random() < 0.5)
+        if m is not None and not isinstance(U.chain_codes(m.chain), tuple):
+            k = r.choice([40, 120, 400])
+            m.long_texts = {
+                'json': ['[' + ', '.join(['{"a": [1, 2, "x"]}'] * k) + ']', '[' * k + '1' + ']' * (k - 1)],
+                'excel': ['=' + ' + '.join(['SUM(A1:B2, 3)'] * k), '=' + '(' * k + 'A1' + ')' * k + ' +'],
+                'salesforce': [' + '.join(['f(x.y, 1)'] * k), '(' * k + 'a' + ')' * k + ' &&'],
+                'tags': ['<a>' + '<b>x</b><c/>' * k + '</a>', '<a>' * k + 'x' + '</a>' * (k - 1)],
+                'indentation': ['print a\n' * k + 'if b\n  print c', ''.join('%sif x\n' % ('  ' * i) for i in range(min(k, 60))) + '  ' * min(k, 60) + 'print y'],
+            }[m.which]
+            m.want_long = False
+            m.alias_shape = False
+            return [m]
     named0 = r.random() < 0.6
     fam_texts = None
     long_texts = []
@@ -762,6 +778,7 @@ def summarise(r):
         'judged': r['judged'], 'policy': plan['policy']['kind'], 'baseline': plan.get('baseline', False),
         'sig': r['sig'], 'log_digest': r['log_digest'], 'nontrivial_calls': nontrivial_calls,
         'n_clients': len(plan['clients']), 'family': plan.get('family'),
+        'corpus': [m['corpus'] for m in plan['universe'] if m.get('corpus')],
     }
     if r['violations']:
         s['violations'] = [{'index': r['index'], 'violation': r['violations'][0], 'plan': plan,
@@ -781,7 +798,7 @@ def summarise(r):
 
 def new_aggregate():
     return {'counters': {}, 'steps': 0, 'switches': 0, 'judged': 0, 'policies': {}, 'distinct_nontrivial': set(),
-            'digests': {}, 'samples': [], 'baseline_runs': 0, 'baseline_calls': 0, 'empty': 0, 'clients': {}, 'sigs': set()}
+            'digests': {}, 'samples': [], 'baseline_runs': 0, 'baseline_calls': 0, 'empty': 0, 'clients': {}, 'sigs': set(), 'corpus': {}}
 
 
 def aggregate(agg, s):
@@ -800,6 +817,8 @@ def aggregate(agg, s):
     agg['policies'][s['policy']] = agg['policies'].get(s['policy'], 0) + 1
     agg['clients'][str(s['n_clients'])] = agg['clients'].get(str(s['n_clients']), 0) + 1
     agg['sigs'].add(s['sig'])
+    for w in s.get('corpus', []):
+        agg['corpus'][w] = agg['corpus'].get(w, 0) + 1
     agg['distinct_nontrivial'].update(s['nontrivial_calls'])
     if s['baseline']:
         agg['baseline_runs'] += 1
@@ -843,6 +862,7 @@ def coverage(agg):
         'policies': agg['policies'],
         'clients_per_run': agg['clients'],
         'distinct_schedule_signatures': len(agg['sigs']),
+        'runs_on_the_repositorys_own_grammars': agg['corpus'],
         'universes_that_did_not_compile': agg['empty'],
         'real_vs_stub': {
             'real': ['generated modules in full, including the driver _run whose scheduling is the subject',
